@@ -18,7 +18,8 @@ ID = 'C07'
 TITLE = 'unsafe content never reaches executed code'
 RULE = ('1-4 stages, each with a source-level safe flag (some delivered through a top-level !include of a file), writing slots of a fixed '
         'layout: function slots (!call / !bind with literal, !xref and nested-call arguments; argument overrides; target-name overrides by string '
-        'or node; {} / !required / scalar placeholders; value-less !del), scalar-dynamic slots (!eval / f-string / !import), data slots (unique '
+        'or node; lists and !del mappings; {} / !required / scalar placeholders; value-less !del), scalar-dynamic slots (!eval / f-string / !import), '
+        'a lazily included !rec file holding a !call, a dynamic node re-used through a yaml alias, data slots (unique '
         'markers, mappings, !xref aliases); !unsafe on arbitrary written nodes, on the enclosing container or on the root; key order of every '
         'document permuted; non-trivial = >=1 tainted dynamic node or tainted marker reachable from a dynamic node, and >=2 stages touching '
         'that slot; distinct = hash of the case')
